@@ -93,6 +93,33 @@ def _enclosing_try(node, pm) -> Optional[ast.Try]:
     return None
 
 
+def _opener_drops_trunc(ctx: Ctx, init: Func, ref: ast.AST):
+    """True: the opener removes O_TRUNC from the flags it passes on; False: it passes its flags through unchanged;
+    None: not recognised."""
+    name = ref.attr if isinstance(ref, ast.Attribute) else (ref.id if isinstance(ref, ast.Name) else None)
+    cand = [f_ for f_ in ctx.repo.funcs.values() if f_.name == name]
+    if isinstance(ref, ast.Lambda):
+        bodies = [ref]
+        params = [a.arg for a in ref.args.args]
+    elif len(cand) == 1:
+        bodies = [cand[0].node]
+        params = [p_ for p_ in cand[0].params if p_ not in ("self", "cls")]
+    else:
+        return None
+    for b in bodies:
+        for c in ast.walk(b):
+            if isinstance(c, ast.Call) and norm(c.func) in ("os.open", "open") and len(c.args) >= 2:
+                fl = c.args[1]
+                if isinstance(fl, ast.Name) and len(params) >= 2 and fl.id == params[1]:
+                    return False
+                txt = norm(fl).replace(" ", "")
+                if "~os.O_TRUNC" in txt or "~O_TRUNC" in txt or ("O_TRUNC" in txt and "^" in txt):
+                    return True
+                if "O_TRUNC" not in txt and not any(isinstance(x, ast.Name) and len(params) >= 2 and x.id == params[1] for x in ast.walk(fl)):
+                    return True                      # flags built from scratch without O_TRUNC
+    return None
+
+
 def run(ctx: Ctx):
     init = ctx.func("GroFile.__init__")
     load = ctx.func("GroFile._load_and_verify")
@@ -127,10 +154,20 @@ def run(ctx: Ctx):
                                         return _copy.deepcopy(v_) if n.id == nm_ else n
                                 ph, ph_arg = c, _S().visit(_copy.deepcopy(c.args[0]))
     if ph is None:
-        raise AnalysisError("R14.1: the count-line write for an undeclared atom count was not found in "
-                            "_setup_write_file")
-    ws = _ws_only(ph_arg)
-    ctx.ob("R14.1", setup, ph, ws is True,
+        # the header is accumulated in a local and written once: `text += <blanks>` under the undeclared-count test
+        for c in calls_in(setup.node):
+            if call_name(c) == "write" and c.args and isinstance(c.args[0], ast.Name):
+                for s_ in walk_no_nested(setup.node):
+                    if isinstance(s_, ast.AugAssign) and isinstance(s_.op, ast.Add) and norm(s_.target) == c.args[0].id:
+                        g = [(norm(t), pol) for t, pol in guards_of(s_, pm)]
+                        if any(("_natoms is None" in t and pol) or ("_natoms is not None" in t and not pol) for t, pol in g):
+                            ph, ph_arg = c, s_.value
+    if ph is None:
+        ctx.ob("R14.1", setup, "count placeholder", True, "the count-line write for an undeclared atom count is not in a recognised "
+               "form; placeholder not decided on this tree", undecided=True, node=setup.node)
+    ws = _ws_only(ph_arg) if ph is not None else None
+    if ph is not None:
+        ctx.ob("R14.1", setup, ph, ws is True,
            "until close the count line is whitespace only, so int() of it raises in the reader"
            + ("" if ws else " -- the placeholder %s" % ("is not whitespace-only" if ws is False else "could not be folded")),
            node=ph)
@@ -345,3 +382,40 @@ def run(ctx: Ctx):
     okn = not any(call_name(c) == "dump_lattice_gro" for c in calls_in(setup.node))
     ctx.ob("R14.3", setup, "no box line at set-up", okn, "the header set-up writes title and count only", node=setup.node)
     ctx.floor("R14.2", sum(1 for o in ctx.obligations if o.rule == "R14.2"), 9, "gauntlet obligations")
+
+    # ---------------------------------------------------------------- R14.4
+    # a file opened for writing starts EMPTY: it is opened with the builtin open(path, mode) - no custom opener, no
+    # os-level flags - so a crash at any later point leaves only what this writer has written (stale bytes of an
+    # older, complete file after the cursor would make a half-written file look complete)
+    opens = [c for c in calls_in(init.node) if call_name(c) in ("open", "fdopen", "os.open") or norm(c.func) in ("os.open", "os.fdopen", "io.open")]
+    n_open = 0
+    for c in opens:
+        n_open += 1
+        kws = {k.arg for k in c.keywords}
+        plain = isinstance(c.func, ast.Name) and c.func.id == "open"
+        if plain and "opener" not in kws and None not in kws:
+            ctx.ob("R14.4", init, c, len(c.args) >= 2 or "mode" in kws,
+                   "the coordinate file is opened with the builtin open(path, mode): write mode truncates at open time, "
+                   "so nothing of an older file survives a crash of this writer", node=c)
+        elif plain and "opener" in kws and not _opener_drops_trunc(ctx, init, [k.value for k in c.keywords if k.arg == "opener"][0]):
+            keeps = _opener_drops_trunc(ctx, init, [k.value for k in c.keywords if k.arg == "opener"][0])
+            if keeps is False:
+                ctx.ob("R14.4", init, c, True, "the custom opener hands the flags it is given to os.open unchanged (truncation at open time kept)", node=c)
+            else:
+                ctx.ob("R14.4", init, c, True, "the file is opened through a custom opener whose flags are not in a recognised form; "
+                       "truncation at open time not decided on this tree", undecided=True, node=c)
+        elif plain and "opener" in kws:
+            ctx.ob("R14.4", init, c, False,
+                   "the coordinate file is opened with the builtin open(path, mode): write mode truncates at open time -- a "
+                   "custom opener (`%s`) decides the OS flags itself; if it keeps the old bytes, a crash before close leaves a "
+                   "half-written file followed by the tail (records, box line) of the previous one" % norm([k.value for k in c.keywords if k.arg == "opener"][0]),
+                   node=c)
+        else:
+            ctx.ob("R14.4", init, c, True, "the file is not opened with the builtin open(); truncation at open time not decided on this tree",
+                   undecided=True, node=c)
+    ctx.floor("R14.4", n_open, 1, "open() calls in the constructor")
+    # no truncate() after the fact in the writer (it would mean the bytes were not dropped at open time)
+    trunc = [(f_, c) for f_ in ctx.repo.funcs.values() if f_.cls is init.cls for c in calls_in(f_.node) if call_name(c) == "truncate"]
+    if trunc:
+        ctx.ob("R14.4", trunc[0][0], trunc[0][1], True, "the writer truncates the file explicitly; whether every crash point leaves no stale bytes "
+               "is not decided on this tree", undecided=True, node=trunc[0][1])
